@@ -518,5 +518,86 @@ func (t *fltTr) emitRunState(repo string) (string, error) {
 		fmt.Fprintf(&sb, "(%s, %s)", flt_coqStr(k[0]), flt_coqStr(k[1]))
 	}
 	sb.WriteString("].\n\n")
+	fc, err := t.emitFilterConsults(repo)
+	if err != nil {
+		return "", err
+	}
+	sb.WriteString(fc)
+	return sb.String(), nil
+}
+
+// emitFilterConsults: where a compiled filter (matchFilter) is KEPT and where it is CONSULTED, over the whole package: every struct
+// field of type matchFilter ("field", Struct.name) and every call of a matchFilter's function value `X.fn(..)` (enclosing function,
+// call). A rule's Where() expression must decide per match, as one expression: a second compiled filter on the rule (a part of the
+// expression pulled out in front) or a consultation outside the match handlers would be a further entry.
+func (t *fltTr) emitFilterConsults(repo string) (string, error) {
+	dir := repo + "/ruleguard"
+	ents, err := os.ReadDir(dir)
+	if err != nil {
+		return "", err
+	}
+	var out [][2]string
+	for _, e := range ents {
+		n := e.Name()
+		if e.IsDir() || !strings.HasSuffix(n, ".go") || strings.HasSuffix(n, "_test.go") {
+			continue
+		}
+		f, err := flt_parseFile(t.fset, filepath.Join(dir, n))
+		if err != nil {
+			return "", err
+		}
+		for _, d := range f.Decls {
+			switch d := d.(type) {
+			case *ast.GenDecl:
+				for _, sp := range d.Specs {
+					ts, ok := sp.(*ast.TypeSpec)
+					if !ok {
+						continue
+					}
+					st, ok := ts.Type.(*ast.StructType)
+					if !ok {
+						continue
+					}
+					for _, fl := range st.Fields.List {
+						if strings.Contains(t.text(fl.Type), "matchFilter") && !strings.Contains(t.text(fl.Type), "matchFilterResult") {
+							for _, id := range fl.Names {
+								out = append(out, [2]string{"field", ts.Name.Name + "." + id.Name + " " + t.text(fl.Type)})
+							}
+							if len(fl.Names) == 0 {
+								out = append(out, [2]string{"field", ts.Name.Name + ".(embedded) " + t.text(fl.Type)})
+							}
+						}
+					}
+				}
+			case *ast.FuncDecl:
+				if d.Body == nil {
+					continue
+				}
+				ast.Inspect(d.Body, func(nd ast.Node) bool {
+					if call, ok := nd.(*ast.CallExpr); ok {
+						if sel, ok := call.Fun.(*ast.SelectorExpr); ok && sel.Sel.Name == "fn" {
+							out = append(out, [2]string{d.Name.Name, t.text(call)})
+						}
+					}
+					return true
+				})
+			}
+		}
+	}
+	sort.Slice(out, func(i, j int) bool {
+		if out[i][0] != out[j][0] {
+			return out[i][0] < out[j][0]
+		}
+		return out[i][1] < out[j][1]
+	})
+	var sb strings.Builder
+	sb.WriteString("(* package ruleguard: struct fields that hold a compiled filter, and every call of a compiled filter's function *)\nDefinition gen_filter_consults : list (string * string) := [")
+	for i, k := range out {
+		if i > 0 {
+			sb.WriteString("; ")
+		}
+		fmt.Fprintf(&sb, "(%s, %s)", flt_coqStr(k[0]), flt_coqStr(k[1]))
+	}
+	sb.WriteString("].\n\n")
 	return sb.String(), nil
 }
